@@ -2,34 +2,30 @@
  'kind': 'proof', 'mode': 'legacy',
  'functions': ['ring_counter_fixup_pos', 'ring_counter_prev', 'ring_counter_last'],
  'clauses': 'for every RC(rc) with size in [1, INT_MAX]: fixup_pos(pos) terminates for every int pos and returns a value in [0,size), equal to the mathematical pos mod size for -size <= pos < 2*size; prev(i) terminates for every i >= 0 and returns a value in [0,size), equal to (counter - i) mod size for 0 <= i <= size (cyclic_buffer::operator[](i): the i-th previous sample); last(no) == (counter - no) mod size for -size <= no <= size; none of them writes the counter (const)',
- 'inject': [{'file': 'igris/datastruct/ring_counter.h', 'func': 'ring_counter_fixup_pos', 'loop': 0, 'expect': 'pos >= rc->size',
+ 'inject': [{'file': 'igris/datastruct/ring_counter.h', 'func': 'ring_counter_fixup_pos', 'loop': 0, 'expect': 'while (pos',
              'assigns': 'pos',
-             'invariants': ['pos <= g_p0 && (g_p0 >= 0 ==> pos >= 0)',
-                            'g_p0 < rc->size ==> pos == g_p0',
-                            '(g_p0 >= rc->size && g_p0 - rc->size < rc->size) ==> (pos == g_p0 || pos == g_p0 - rc->size)'],
+             'invariants': ['pos <= __CPROVER_loop_entry(pos) && (__CPROVER_loop_entry(pos) >= 0 ==> pos >= 0)',
+                            '__CPROVER_loop_entry(pos) < rc->size ==> pos == __CPROVER_loop_entry(pos)',
+                            '(__CPROVER_loop_entry(pos) >= rc->size && __CPROVER_loop_entry(pos) - rc->size < rc->size) ==> (pos == __CPROVER_loop_entry(pos) || pos == __CPROVER_loop_entry(pos) - rc->size)'],
              'decreases': 'pos'},
-            {'file': 'igris/datastruct/ring_counter.h', 'func': 'ring_counter_fixup_pos', 'loop': 1, 'expect': 'pos < 0',
+            {'file': 'igris/datastruct/ring_counter.h', 'func': 'ring_counter_fixup_pos', 'loop': 1, 'expect': 'while (pos',
              'assigns': 'pos',
-             'invariants': ['pos < rc->size && pos >= g_p0',
-                            'g_p0 >= 0 ==> pos == g_p0',
-                            '(g_p0 < 0 && g_p0 + rc->size >= 0) ==> (pos == g_p0 || pos == g_p0 + rc->size)'],
+             'invariants': ['pos < rc->size && pos >= __CPROVER_loop_entry(pos)',
+                            '__CPROVER_loop_entry(pos) >= 0 ==> pos == __CPROVER_loop_entry(pos)',
+                            '(__CPROVER_loop_entry(pos) < 0 && __CPROVER_loop_entry(pos) + rc->size >= 0) ==> (pos == __CPROVER_loop_entry(pos) || pos == __CPROVER_loop_entry(pos) + rc->size)'],
              'decreases': '-(long long)pos'},
-            {'file': 'igris/datastruct/ring_counter.h', 'func': 'ring_counter_fixup_pos', 'ghost': 'g_p0 = pos;', 'at': 'func-begin'},
-            {'file': 'igris/datastruct/ring_counter.h', 'func': 'ring_counter_fixup_pos', 'ghost': 'g_p0 = pos;', 'at': 'before', 'anchor': 'while (pos < 0)'},
-            {'file': 'igris/datastruct/ring_counter.h', 'func': 'ring_counter_prev', 'loop': 0, 'expect': 'c < 0',
+            {'file': 'igris/datastruct/ring_counter.h', 'func': 'ring_counter_prev', 'loop': 0, 'expect': 'while (c',
              'assigns': 'c',
-             'invariants': ['c < rc->size && c >= g_c1',
-                            'g_c1 >= 0 ==> c == g_c1',
-                            '(g_c1 < 0 && g_c1 + rc->size >= 0) ==> (c == g_c1 || c == g_c1 + rc->size)'],
-             'decreases': '-(long long)c'},
-            {'file': 'igris/datastruct/ring_counter.h', 'func': 'ring_counter_prev', 'ghost': 'g_c1 = c;', 'at': 'before', 'anchor': 'while (c < 0)'}],
+             'invariants': ['c < rc->size && c >= __CPROVER_loop_entry(c)',
+                            '__CPROVER_loop_entry(c) >= 0 ==> c == __CPROVER_loop_entry(c)',
+                            '(__CPROVER_loop_entry(c) < 0 && __CPROVER_loop_entry(c) + rc->size >= 0) ==> (c == __CPROVER_loop_entry(c) || c == __CPROVER_loop_entry(c) + rc->size)'],
+             'decreases': '-(long long)c'}],
  'assumptions': ['RC(rc): 1 <= size, 0 <= counter < size',
                  'ring_counter_prev: i >= 0 ("i iterations earlier"; a negative i gives counter - i >= size unreduced, and can overflow); ring_counter_last: counter - no representable'],
  'witness': {'unwind': 8},
 } @*/
 #include "c03_ring.h"
 #include <limits.h>
-int g_p0, g_c1; /* ghosts: value of pos / c when the loop that follows is entered */
 #include <igris/datastruct/ring_counter.h>
 
 void harness(void)
